@@ -728,8 +728,10 @@ impl<W: Write + io::Seek> ZipWriter<W> {
     where
         S: Into<String>,
     {
+        // a size that does not fit 32 bits, or that EQUALS the marker value 0xFFFFFFFF, needs the local
+        // ZIP64 record: written literally, the marker would announce a record that is not there
         let mut options = FileOptions::default()
-            .large_file(file.compressed_size().max(file.size()) > spec::ZIP64_BYTES_THR)
+            .large_file(file.compressed_size().max(file.size()) >= spec::ZIP64_BYTES_THR)
             .last_modified_time(file.last_modified())
             .compression_method(file.compression());
         if let Some(mode) = file.unix_mode() {
